@@ -31,23 +31,7 @@ PATHS = ['c', 'bc', '@abc\\dir\\file.mp3', '@abc\\dir\\fïle.flac', '1', '11', '
 LOCALS = [None, '/dl/file.mp3', '/dl/other (1).flac', '/sh/x']
 INPROG = ('INITIALIZING', 'DOWNLOADING', 'UPLOADING')
 
-COQ_HEADER = L.COQ_HEADER + '''From Slsk Require Import C17.Model.
-Definition KK := list N.
-Definition HH (x : list N) : KK := x.    (* an injective stand-in for sha256: key equality = equality of the hashed strings *)
-Definition zob (o : option N) : Z := match o with None => -1 | Some n => Z.of_N n end.
-Definition enc_m (m : mt) : list Z :=
-  [Z.of_nat (length (m_user m))] ++ map Z.of_N (m_user m) ++ [Z.of_nat (length (m_path m))] ++ map Z.of_N (m_path m) ++
-  [match m_dir m with Upload => 0 | Download => 1 end; st_value (m_state m); zob (m_local m); zb (m_rq m); zob (m_place m);
-   zob (m_fail m); zob (m_abort m); zob (m_filesize m); Z.of_N (m_bytes m); Z.of_N (m_qatt m); Z.of_N (m_uatt m);
-   zob (m_start m); zob (m_complete m); zb (m_offset m); zb (m_registered m)].
-Definition enc_om (o : option mt) : list Z := match o with Some m => enc_m m | None => [-99] end.
-Fixpoint count (x : list Z) (l : list (list Z)) : nat :=
-  match l with [] => O | y :: r => (if zeq x y then 1 else 0) + count x r end.
-Definition msame (a b : list (list Z)) : bool :=
-  Nat.eqb (length a) (length b) && forallb (fun x => Nat.eqb (count x a) (count x b)) (a ++ b).
-Definition writes (ws : list (list mt)) : db KK := fold_left (fun d ts => write KK bytes_eqb HH d ts) ws [].
-Definition got_read (ws : list (list mt)) : list (list Z) := map enc_om (read KK (writes ws)).
-Definition got_load (ws : list (list mt)) : list (list Z) := map enc_m (load KK (writes ws)).
+COQ_HEADER = L.COQ_HEADER + '''From Slsk Require Import C17.Model C17.Eval.
 '''
 
 
@@ -224,12 +208,29 @@ def history(rng, maxn, collide):
     return writes
 
 
-def run_history(tmp, writes, mon: Monitor, run: Run, drive_ops=None):
-    """real cache + managers; returns (coq text for read, coq text for load, extra C03 cases)"""
+def old_key(s) -> str:
+    """key format of the versions before the fix of F21"""
+    import hashlib
+    return hashlib.sha256((s['user'] + s['path'] + ('0' if s['dir'] == 'UPLOAD' else '1')).encode('utf-8')).hexdigest()
+
+
+def run_history(tmp, writes, mon: Monitor, run: Run, drive_ops=None, old=None):
+    """real cache + managers; returns (coq text for read, coq text for load, extra C03 cases).
+    old: specs of a database left behind by a version with the old key format"""
     d = tempfile.mkdtemp(dir=tmp)
     from aioslsk.transfer.cache import TransferShelveCache
     loop = vloop.new_loop()
     try:
+        old_by_key = {}
+        if old:
+            import shelve
+            for s in old:
+                old_by_key[old_key(s)] = s
+            with shelve.open(os.path.join(d, TransferShelveCache.DEFAULT_FILENAME), flag='c') as database:
+                for k, s in old_by_key.items():
+                    database[k] = make_transfer(s)
+            # an old cache must still load completely
+            mon.roundtrip({'old': old, 'writes': []}, list(old_by_key.values()), TransferShelveCache(d).read())
         cache = TransferShelveCache(d)
         mgr = L.make_manager(cache)
         objs = {}
@@ -258,6 +259,9 @@ def run_history(tmp, writes, mon: Monitor, run: Run, drive_ops=None):
         mon.loaded(ctx, writes[-1], mgr2)
         exp_load = [enc_real(t, mgr2) for t in mgr2.transfers]
         ws = '[' + '; '.join('[' + '; '.join(spec_to_coq(s) for s in w) + ']' for w in writes) + ']'
+        if old:
+            ws = '[' + '; '.join(spec_to_coq(s) for s in old_by_key.values()) + '] ' + ws
+            ctx['old'] = old
         loaded = list(mgr2.transfers)
     finally:
         vloop.close_loop(loop)
@@ -266,7 +270,8 @@ def run_history(tmp, writes, mon: Monitor, run: Run, drive_ops=None):
         for t in loaded[:2]:
             extra.append(drive_loaded(tmp, t, mgr2, drive_ops, mon, ctx))
     shutil.rmtree(d, ignore_errors=True)
-    return (f'(got_read {ws}, {L.zzl(exp_read)})', f'(got_load {ws}, {L.zzl(exp_load)})', extra)
+    fn = '_from' if old else ''
+    return (f'(got_read{fn} {ws}, {L.zzl(exp_read)})', f'(got_load{fn} {ws}, {L.zzl(exp_load)})', extra)
 
 
 def drive_loaded(tmp, t, mgr, calls, mon: Monitor, ctx):
@@ -303,7 +308,7 @@ def drive_loaded(tmp, t, mgr, calls, mon: Monitor, ctx):
                                         dict(ctx, calls=[list(c) for c in calls])))
         if h.violations:
             mon.run.add_finding(Finding('loaded-lock-not-held', 'state method of a loaded transfer acted without the lock', ctx))
-        return f'(seq_out {L.coq_transfer(state, direction, cfg_model)} [{"; ".join(L.coq_call(c) for c in calls)}], {L.zzl(exp)})'
+        return ('seq', L.coq_transfer(state, direction, cfg_model), [L.coq_call(c) for c in calls], [], exp)
     finally:
         h.close()
 
@@ -338,14 +343,15 @@ def legacy_case(rng, mon: Monitor, tmp):
 def run(run: Run):
     run.rule = ('histories write / mutate / remove / add / write (1..3 writes) over lists of 0..8 transfers with distinct identities drawn from '
                 'name pools that contain colliding concatenations, empty and non-ASCII names; every state x direction first, then random field '
-                'combinations; each history is read by a new cache object and loaded by a new TransferManager; legacy pickles; loaded transfers '
+                'combinations; a third of the histories start from a database written with the pre-fix key format; each history is read by a '
+                'new cache object and loaded by a new TransferManager; legacy pickles; loaded transfers '
                 'driven through 1..3 operations. distinct = distinct history; non-trivial = at least one transfer in the last write')
     run.trusted += ['shelve/dbm/pickle/hashlib of CPython as oracles; the model evaluates with an injective stand-in for sha256 (the theorems '
                     'quantify over every hash function and state key injectivity on the listed transfers as a premise)',
                     'the INITIALIZING repair uses C03/Model.v effect semantics over the regenerated TransGen.trans']
     run.assumptions += ['TransferManager.transfers never holds two transfers with the same (username, remote_path, direction) (add() deduplicates)',
                         'a process end is modelled by the last completed write (torn shelve files are out of scope)']
-    run.prove(['tr_state'])
+    run.prove(['tr_state'], extra_targets=['theories/C03/Eval.vo', 'theories/C17/Eval.vo'])
     mon = Monitor(run)
     tmp = tempfile.mkdtemp(prefix='verif_c17_')
     read_cases, load_cases, c03_cases, legacy_cases = [], [], [], []
@@ -389,15 +395,22 @@ def run(run: Run):
             collide = run.rng.random() < 0.15
             writes = history(run.rng, run.rng.choice([0, 1, 2, 4, 8, 8]), collide)
             ops = [one_call(run.rng) for _ in range(run.rng.randrange(1, 4))] if i % 2 == 0 else None
+            old = None
+            if i % 3 == 0:
+                # a cache written by a version with the old key format: some transfers still listed (other field values), some not
+                old = [gen_spec(run.rng, ident(s)) for s in writes[0][:run.rng.randrange(0, 4)]]
+                old += [gen_spec(run.rng, x) for x in gen_idents(run.rng, run.rng.randrange(0, 3), False) if x not in {ident(o) for o in old}]
             try:
-                r, l, extra = run_history(tmp, writes, mon, run, drive_ops=ops)
+                r, l, extra = run_history(tmp, writes, mon, run, drive_ops=ops, old=old)
             except Exception as e:
-                run.add_finding(Finding(f'cache-operation-raised:{type(e).__name__}', f'write/read/load raised {type(e).__name__}: {e}', {'writes': writes}))
+                run.add_finding(Finding(f'cache-operation-raised:{type(e).__name__}', f'write/read/load raised {type(e).__name__}: {e}',
+                                        {'writes': writes, 'old': old}))
                 continue
             read_cases.append(r)
             load_cases.append(l)
             c03_cases += extra
-            run.case(writes, nontrivial=bool(writes[-1]), kind=f'history-{len(writes)}writes' + ('-colliding' if collide else ''))
+            run.case({'w': writes, 'old': old}, nontrivial=bool(writes[-1]),
+                     kind=f'history-{len(writes)}writes' + ('-colliding' if collide else '') + ('-oldformat' if old else ''))
         for _ in range(40 if run.tier == 'quick' else 300):
             try:
                 legacy_cases.append(legacy_case(run.rng, mon, tmp))
@@ -435,7 +448,12 @@ def run(run: Run):
               ('legacy', legacy_cases, COQ_HEADER, 'zzeq'), ('loaded-ops', c03_cases, L.COQ_HEADER, 'zzeq')]
     texts, index = [], []
     for name, cs, header, cmp in groups:
-        shard = 60 if name in ('read', 'load') else 300
+        shard = 150 if name in ('read', 'load') else 600
+        if name == 'loaded-ops':
+            for i in range(0, len(cs), 1500):
+                texts.append(L.shard_text(L.COQ_HEADER, cs[i:i + 1500]))
+                index.append((name, [str(c) for c in cs], i))
+            continue
         for i in range(0, len(cs), shard):
             rows = ';\n'.join(f' ({k}%nat, {c})' for k, c in enumerate(cs[i:i + shard]))
             texts.append(header + 'Definition cases : list (nat * (list (list Z) * list (list Z))) := [\n' + rows + '\n].\n'
@@ -477,7 +495,10 @@ def replay(rep) -> int:
     tmp = tempfile.mkdtemp(prefix='verif_c17_')
     try:
         if 'writes' in wit:
-            run_history(tmp, wit['writes'], mon, r)
+            if wit['writes']:
+                run_history(tmp, wit['writes'], mon, r, old=wit.get('old'))
+            else:
+                run_history(tmp, [], mon, r, old=wit.get('old'))
         elif 'transfers' in wit:
             import random
             specs = [gen_spec(random.Random(1), tuple(i), 'QUEUED') for i in wit['transfers']]
